@@ -113,6 +113,11 @@ pub fn check_term(s: &mut Sess, rep: &mut Report, t: RegLan, k: usize, small_pro
     }
     // try_compile(e, n) is Some exactly when n >= count
     let mut bounds = vec![0usize, 1, count.saturating_sub(1), count, count + 1, 2 * count, usize::MAX];
+    if usize::BITS >= 64 && count <= 400 {
+        // bounds whose low 32 bits are small (a bound must not be truncated to 32 bits)
+        let b32 = 1usize << 32;
+        bounds.extend([u32::MAX as usize, b32, b32 + 1, b32 + count.saturating_sub(1), b32 + count, 1usize << 40, (1usize << 48) + 2]);
+    }
     bounds.sort_unstable();
     bounds.dedup();
     for n in bounds {
